@@ -14,7 +14,7 @@ Inductive cls :=
 Fixpoint in_ranges (l : list (N * N)) (x : N) : bool :=
   match l with
   | [] => false
-  | (lo, hi) :: t => ((lo <=? x) && (x <=? hi)) || in_ranges t x
+  | (lo, hi) :: t => if (lo <=? x) && (x <=? hi) then true else in_ranges t x      (* `if`: evaluated lazily by the VM *)
   end.
 
 Fixpoint cls_mem (c : cls) (x : N) : bool :=
@@ -23,7 +23,7 @@ Fixpoint cls_mem (c : cls) (x : N) : bool :=
   | CChar y => N.eqb x y
   | CRanges l => in_ranges l x
   | CNot c' => negb (cls_mem c' x)
-  | COr a b => cls_mem a x || cls_mem b x
+  | COr a b => if cls_mem a x then true else cls_mem b x
   end.
 
 Inductive re :=
